@@ -261,6 +261,16 @@ func checkNoEscalation(c *mon.Ctx, t *ref.VersionTraits, creators []string, cur,
 				continue
 			}
 		}
+		if _, had := o.users[u]; !had {
+			if ent, has := n.users[u]; has && ent > sl {
+				// an entry is added with a level above the sender's: where users_default gives the user as much today the
+				// effective level does not move, but the entry is a user level set above the sender's, and it outlives the
+				// default (ninth audit round, auth #1)
+				c.Count("changed|users")
+				fail("users:entry-added-above-sender", "users["+u+"] (entry added)", ov, ent)
+				continue
+			}
+		}
 		if ov == nv {
 			continue
 		}
@@ -532,6 +542,37 @@ func runC08(c *mon.Ctx) {
 						checkNoEscalation(c, t, creators, cur, proposed, mod, name)
 					}
 				})
+			}
+		}
+		// (a1') an entry added at the level users_default gives everybody today, by a sender who stands BELOW that default
+		// (ninth audit round, auth #1): no effective level moves, yet a user level is set above the sender's, and it
+		// stays when the default is lowered. Controls: the same entry at the sender's level, and by a sender at the default.
+		for _, dflt := range []int64{100, 75} {
+			for _, entry := range []int64{dflt, 50, dflt + 1} {
+				for _, sender := range []string{mod, authUsers[0]} {
+					caseNo++
+					if !c.Mine(caseNo) {
+						continue
+					}
+					cur := ref.O("users", ref.O(authUsers[0], ref.I(100), mod, ref.I(50)), "users_default", ref.I(dflt), "events", ref.O("m.room.power_levels", ref.I(50)))
+					proposed := cur.Clone()
+					proposed.Get("users").Set(pleb, ref.I(entry))
+					if t.PLCreatorCheck {
+						for _, pc := range []*ref.Value{cur, proposed} {
+							pc.Get("users").Del(authUsers[0])
+							pc.Get("users").Del(authUsers[1])
+						}
+					}
+					curEv := w.mustBuild("m.room.power_levels", strp(""), authUsers[0], cur)
+					name := fmt.Sprintf("entry-added-at-users-default:%s:default=%d:entry=%d:sender=%s", ver, dflt, entry, sender)
+					c.Case(name, map[string]any{"version": ver, "sender": sender, "current": gen.Describe(cur), "proposed": gen.Describe(proposed)}, func() {
+						c.Nontrivial(name)
+						c.Count("entries_added_at_the_level_of_users_default")
+						if _, ok := tryPL(c, w, curEv, proposed, sender, joined); ok {
+							checkNoEscalation(c, t, creators, cur, proposed, sender, name)
+						}
+					})
+				}
 			}
 		}
 		// (a2) versions in which creators stand above the power levels: an event that names one of them in users, with
